@@ -38,7 +38,7 @@ def replay(rp):
     """protocol counterexamples of solver_t::done / do_minimize are driven on the real solvers by a scripted function"""
     import replaylib
     out = {'reproduced': False, 'runs': []}
-    if 'lbfgs_update' in rp['target'] or 'lsearch_step_decrease' in rp['target']:
+    if 'lbfgs_update' in rp['target'] or 'step_decreases_value' in rp['target']:
         exe = replaylib.build_with_library('replay/C02_gslbfgs_replay.cpp', 'C02_gslbfgs_replay')
         rc, so, se = replaylib.run_driver(exe, [300], timeout=600)
         out['runs'].append({'exit': rc, 'output': so.strip()[-3000:]})
